@@ -244,7 +244,7 @@ Proof.
     + apply IH. exact Hok'.
   - assert (Hcap : blen (c_digest p) <= max_digest_alloc) by (unfold max_width, max_digest_alloc in *; lia).
     destruct (stream_section c d p rest Hp Hc Hcap H63) as [Hr Hcr].
-    unfold raw_uv. rewrite Hr, Hcr.
+    unfold raw_uv. rewrite Hr. replace (maxs <? blen c + blen d) with false by lia. rewrite Hcr.
     destruct (key_matches whole key kp c p) eqn:Ek.
     + unfold found_of. cbn [fst snd]. f_equal. f_equal. lia.
     + apply IH. exact Hok'.
